@@ -14,6 +14,7 @@ Reading guide
   give `UnexpectedEof`).
 -/
 import WowSrp.Lemmas.HeaderIo
+import WowSrp.Lemmas.MapOk
 namespace WowSrp
 
 /-- tie to the source: the header lengths the wrappers read (regenerated on every run) -/
@@ -785,8 +786,125 @@ theorem C11_facade_eq_half_iff (e : Exp) (hc hc' : HeaderCrypto) (d out : Bytes)
       · rintro ⟨a, b⟩; exact ⟨h', ⟨rfl, b⟩, a.symm⟩
       · rintro ⟨h2, ⟨a, b⟩, c⟩; subst a; exact ⟨c.symm, b⟩
 
+/-- **the Read / Write wrappers of the combined object**
+    (`HeaderCrypto::{read_and_decrypt_server_header, read_and_decrypt_client_header,
+    write_encrypted_server_header, write_encrypted_client_header}`, Vanilla and TBC), for every reader /
+    writer script: the facade's outcome is the half's wrapper's outcome (panic ↦ the same panic,
+    `Out.mapOk`) with the new half put back into the *same* combined object; the `io::Result` and what
+    is left of the reader script / what reached the sink are the half's -/
+theorem C11_facade_io_eq_half (e : Exp) (hc : HeaderCrypto) :
+    (∀ script, hc.readServerHeader e script =
+      (hc.decrypt.readServerHeader e script).mapOk fun r =>
+        ⟨{ hc with decrypt := r.state }, r.result, r.rest⟩) ∧
+    (∀ script, hc.readClientHeader e script =
+      (hc.decrypt.readClientHeader e script).mapOk fun r =>
+        ⟨{ hc with decrypt := r.state }, r.result, r.rest⟩) ∧
+    (∀ size opcode script, hc.writeServerHeader e size opcode script =
+      (hc.encrypt.writeServerHeader e size opcode script).mapOk fun r =>
+        ⟨{ hc with encrypt := r.state }, r.result, r.rest⟩) ∧
+    (∀ size opcode script, hc.writeClientHeader e size opcode script =
+      (hc.encrypt.writeClientHeader e size opcode script).mapOk fun r =>
+        ⟨{ hc with encrypt := r.state }, r.result, r.rest⟩) := by
+  refine ⟨fun sc => ?_, fun sc => ?_, fun s o w => ?_, fun s o w => ?_⟩
+  · unfold HeaderCrypto.readServerHeader
+    cases hc.decrypt.readServerHeader e sc <;> rfl
+  · unfold HeaderCrypto.readClientHeader
+    cases hc.decrypt.readClientHeader e sc <;> rfl
+  · unfold HeaderCrypto.writeServerHeader
+    cases hc.encrypt.writeServerHeader e s o w <;> rfl
+  · unfold HeaderCrypto.writeClientHeader
+    cases hc.encrypt.writeClientHeader e s o w <;> rfl
+
+/-- **the same in "returns … ↔ the half returns …" / "panics ↔ the half panics" form**: the facade returns
+    an `IoRes` iff the half's wrapper returns one with the same `io::Result` and the same remaining
+    script / sink, and the facade's state is the old combined object with only that half replaced -/
+theorem C11_facade_io_eq_half_iff (e : Exp) (hc : HeaderCrypto) (size opcode : Nat)
+    (w : List WEv) (script : List REv) :
+    (∀ R, hc.readServerHeader e script = .ok R ↔
+      ∃ r, hc.decrypt.readServerHeader e script = .ok r ∧
+        R.state = { hc with decrypt := r.state } ∧ R.result = r.result ∧ R.rest = r.rest) ∧
+    (∀ R, hc.readClientHeader e script = .ok R ↔
+      ∃ r, hc.decrypt.readClientHeader e script = .ok r ∧
+        R.state = { hc with decrypt := r.state } ∧ R.result = r.result ∧ R.rest = r.rest) ∧
+    (∀ R, hc.writeServerHeader e size opcode w = .ok R ↔
+      ∃ r, hc.encrypt.writeServerHeader e size opcode w = .ok r ∧
+        R.state = { hc with encrypt := r.state } ∧ R.result = r.result ∧ R.rest = r.rest) ∧
+    (∀ R, hc.writeClientHeader e size opcode w = .ok R ↔
+      ∃ r, hc.encrypt.writeClientHeader e size opcode w = .ok r ∧
+        R.state = { hc with encrypt := r.state } ∧ R.result = r.result ∧ R.rest = r.rest) ∧
+    (∀ p, (hc.readServerHeader e script = .panic p ↔ hc.decrypt.readServerHeader e script = .panic p) ∧
+      (hc.readClientHeader e script = .panic p ↔ hc.decrypt.readClientHeader e script = .panic p) ∧
+      (hc.writeServerHeader e size opcode w = .panic p ↔ hc.encrypt.writeServerHeader e size opcode w = .panic p) ∧
+      (hc.writeClientHeader e size opcode w = .panic p ↔ hc.encrypt.writeClientHeader e size opcode w = .panic p)) := by
+  obtain ⟨h1, h2, h3, h4⟩ := C11_facade_io_eq_half e hc
+  rw [h1 script, h2 script, h3 size opcode w, h4 size opcode w]
+  simp only [Out.mapOk_eq_ok_iff, Out.mapOk_eq_panic_iff]
+  refine ⟨fun R => ?_, fun R => ?_, fun R => ?_, fun R => ?_, fun p => ⟨trivial, trivial, trivial, trivial⟩⟩ <;>
+  · constructor
+    · rintro ⟨r, h1, h2⟩
+      exact ⟨r, h1, by rw [h2], by rw [h2], by rw [h2]⟩
+    · rintro ⟨r, h1, h2, h3, h4⟩
+      refine ⟨r, h1, ?_⟩
+      cases R
+      simp only at h2 h3 h4
+      rw [h2, h3, h4]
+
+/-- **a failed read through the facade leaves the whole combined object as it was**: if `read_exact`
+    fails within the 4 bytes (`HeaderCrypto::read_and_decrypt_server_header`) / the 6 bytes
+    (`HeaderCrypto::read_and_decrypt_client_header`) — whatever the reason, wherever — the facade reports
+    the reader's error, has consumed the script as far as `read_exact` did, and returns the *same*
+    object `hc` (both halves) -/
+theorem C11_failed_read_facade (e : Exp) (hc : HeaderCrypto) (script rest : List REv) (k : IoKind) :
+    (readExact script 4 [] = (.error k, rest) →
+      hc.readServerHeader e script = .ok ⟨hc, .error k, rest⟩) ∧
+    (readExact script 6 [] = (.error k, rest) →
+      hc.readClientHeader e script = .ok ⟨hc, .error k, rest⟩) := by
+  constructor
+  · intro hr
+    rw [(C11_facade_io_eq_half e hc).1 script, C11_failed_read_server e hc.decrypt script rest k hr]
+    rfl
+  · intro hr
+    rw [(C11_facade_io_eq_half e hc).2.1 script, C11_failed_read_client e hc.decrypt script rest k hr]
+    rfl
+
+/-- **injected at every byte offset, for every error kind**: the reader delivers fewer than 4 / 6 bytes
+    (fragmented and interrupted at will: `pre` is a benign prefix), then fails with `ev`; the facade
+    reports that event's kind, the combined object is unchanged, and the script has been consumed
+    exactly up to the failing event -/
+theorem C11_failed_read_facade_at_offset (e : Exp) (hc : HeaderCrypto) (pre tail : List REv) (ev : REv)
+    (k : IoKind) (hb : ∀ x ∈ pre, x.benign = true) (hk : ev.failKind = some k) :
+    ((dataOf pre).length < 4 →
+      hc.readServerHeader e (pre ++ ev :: tail) = .ok ⟨hc, .error k, tail⟩) ∧
+    ((dataOf pre).length < 6 →
+      hc.readClientHeader e (pre ++ ev :: tail) = .ok ⟨hc, .error k, tail⟩) :=
+  ⟨fun hn => (C11_failed_read_facade e hc _ _ k).1 (readExact_fail_stop pre tail ev 4 k [] hb hn hk),
+   fun hn => (C11_failed_read_facade e hc _ _ k).2 (readExact_fail_stop pre tail ev 6 k [] hb hn hk)⟩
+
+/-- the reader simply has nothing more to give before the header is complete: `UnexpectedEof`, the
+    combined object untouched -/
+theorem C11_failed_read_facade_short (e : Exp) (hc : HeaderCrypto) (pre : List REv)
+    (hb : ∀ x ∈ pre, x.benign = true) :
+    ((dataOf pre).length < 4 →
+      hc.readServerHeader e pre = .ok ⟨hc, .error kindUnexpectedEof, []⟩) ∧
+    ((dataOf pre).length < 6 →
+      hc.readClientHeader e pre = .ok ⟨hc, .error kindUnexpectedEof, []⟩) :=
+  ⟨fun hn => (C11_failed_read_facade e hc _ _ _).1 (readExact_fail_end pre 4 [] hb hn),
+   fun hn => (C11_failed_read_facade e hc _ _ _).2 (readExact_fail_end pre 6 [] hb hn)⟩
+
+/-- non-vacuity: three bytes in two fragments with an interruption in between, then error kind 7 -/
+example (e : Exp) (hc : HeaderCrypto) :
+    hc.readServerHeader e [.data [1], .interrupted, .data [2, 3], .err 7, .data [4, 5]]
+      = .ok ⟨hc, .error 7, [.data [4, 5]]⟩ ∧
+    hc.readClientHeader e [.data [1], .interrupted, .data [2, 3], .err 7, .data [4, 5]]
+      = .ok ⟨hc, .error 7, [.data [4, 5]]⟩ :=
+  have h := C11_failed_read_facade_at_offset e hc [.data [1], .interrupted, .data [2, 3]] [.data [4, 5]]
+    (.err 7) 7 (by decide) rfl
+  ⟨h.1 (by decide), h.2 (by decide)⟩
+
 /-- **split halves are literally the two fields**, so using a split half *is* using the half the facade
-    delegates to; the Read/Write wrappers exist on the halves only and are covered above -/
+    delegates to. The Read/Write wrappers exist on the halves *and* on the combined object
+    (`HeaderCrypto.readServerHeader`, … in Model/Header.lean); the facade's are the halves' with the half
+    put back (`C11_facade_io_eq_half`), so everything proved about the halves' wrappers above carries over -/
 theorem C11_split_is_fields (hc : HeaderCrypto) : hc.split = (hc.encrypt, hc.decrypt) := rfl
 
 /-- all four routes to a server header agree: facade, split half, typed helper, raw call on the layout -/
@@ -798,3 +916,10 @@ theorem C11_agree_encrypt_server_header (e : Exp) (hc : HeaderCrypto) (size opco
   ⟨rfl, rfl, rfl, rfl⟩
 
 end WowSrp
+
+#print axioms WowSrp.C11_facade_io_eq_half
+#print axioms WowSrp.C11_facade_io_eq_half_iff
+#print axioms WowSrp.C11_failed_read_facade
+#print axioms WowSrp.C11_failed_read_facade_at_offset
+#print axioms WowSrp.C11_failed_read_facade_short
+#print axioms WowSrp.C11_split_is_fields
